@@ -13,6 +13,11 @@ from .values import *   # noqa
 from . import values as V
 
 
+# log-call argument expressions are evaluated when a contract sets the hook eval_log_args; PYVC_LOG_ARGS=1 makes that
+# the default for every contract (exploration aid, not used by the registered commands)
+LOG_ARGS_DEFAULT = os.environ.get('PYVC_LOG_ARGS') == '1'
+
+
 class PyRaise(Exception):
     """An exception of the object program."""
     def __init__(self, exc):
@@ -117,6 +122,7 @@ class Exec(object):
         self.world = world
         self.timeout_ms = timeout_ms
         self.branch_timeout_ms = int(os.environ.get('PYVC_BRANCH_MS', '2000'))
+        self.retry_factor = int(os.environ.get('PYVC_RETRY_FACTOR', '6'))
         self.max_paths = max_paths
         self.max_unroll = max_unroll
         self.obligations = []
@@ -337,6 +343,15 @@ class Exec(object):
         for e in extra:
             self.solver.add(e)
         r = self.solver.check()
+        if r == z3.unknown and self.retry_factor > 1:
+            # an obligation that ran into the per-query budget (machine busy, unlucky heuristics) is tried once more
+            # with a larger one before it counts as undecided; verdicts must not depend on the load of the machine
+            self.solver.set('timeout', self.timeout_ms * self.retry_factor)
+            self.retries = getattr(self, 'retries', 0) + 1
+            t1 = time.time()
+            r = self.solver.check()
+            self.solver_time += time.time() - t1
+            self.solver.set('timeout', self.timeout_ms)
         m = self.solver.model() if r == z3.sat else None
         if r == z3.sat and self.len_terms:
             # prefer a small counterexample: bound every symbolic length
@@ -715,8 +730,27 @@ class Exec(object):
         if isinstance(v, ast.Constant):
             return
         if self.is_log_call(v):
+            if self.hooks.get('eval_log_args', LOG_ARGS_DEFAULT):
+                self.eval_log_args(v)
             return
         self.eval(v)
+
+    def eval_log_args(self, call):
+        """The logging call itself is dropped, but Python evaluates its argument expressions first: an exception
+        raised there (a format spec the value's type refuses, a missing attribute or index) leaves the function
+        like any other.  Evaluated on request (contract hook eval_log_args); what the executor cannot evaluate is
+        skipped and counted, the assumption 'log arguments raise nothing' then stands for that call."""
+        st = self.ghost.setdefault('log_args', {'evaluated': 0, 'skipped': 0})
+        try:
+            for a in call.args:
+                if isinstance(a, ast.Starred):
+                    raise Unsupported('starred log argument')
+                self.eval(a)
+            for kw in call.keywords:
+                self.eval(kw.value)
+            st['evaluated'] += 1
+        except Unsupported:
+            st['skipped'] += 1
 
     def is_log_call(self, v):
         """log.*(...), self.log.*(...), print(...) are dropped (DESIGN 2.1)."""
